@@ -189,3 +189,27 @@ def _derived_from_rest_after_comma(o, r2, rest):
         entry = lev.get((lv[1], lv[2], lv[3]))
         return entry is not None and canon_slice(entry) == after
     return False
+
+
+def list_constructor(ctx, rule):
+    """every construction of the list iterator starts with the whole header value and the malformed flag clear"""
+    from .common import aggregates
+    adt, nx, remf, flagf = find_list(ctx)
+    n = 0
+    for b, i, st in aggregates(ctx.facts, adt):
+        for o in ctx.px(b["name"]):
+            if o.kind != "return" or not is_agg(o.value) or o.value[2] != adt:
+                continue
+            n += 1
+            fl = agg_get(o.value, flagf)
+            rm = agg_get(o.value, remf)
+            bad = []
+            if fl != const(0):
+                bad.append("the malformed flag starts as %s" % short(fl, 20))
+            if canon_slice(rm)[0] not in (("param", 1), ("deref", ("param", 1))) or canon_slice(rm)[1] != ():
+                bad.append("the remainder starts as %s, not the header value given" % short(rm, 40))
+            if bad:
+                ctx.violation(rule, "%s|ctor|%s" % (rule, bad[0][:30]), "tag-list iterator constructed in %s: %s" % (b["name"], "; ".join(bad)), where=F.loc(st["span"]))
+            else:
+                ctx.ok(rule, "%s: starts at the whole value with the malformed flag clear" % b["name"])
+    ctx.floor(rule + ".ctor", n, 1, what="construction paths of the tag-list iterator")
